@@ -40,14 +40,18 @@ type Case struct {
 	Hash   int      `json:"hash"`   // candidate hash move encoding
 	Nest   []int    `json:"nest"`   // nesting: at level i stop the outer picker after Nest[i] yields and descend
 	Hashes []int    `json:"hashes"` // hash move candidates for the nested levels
+	// Frameless: the outermost picker runs without a frame of its own on the move store (the way the
+	// repository's own picker test uses it); inner pickers push frames as the search does
+	Frameless bool `json:"frameless,omitempty"`
 }
 
 type world struct {
-	b      *board.Board
-	ms     *move.Store
-	ranker heur.MoveRanker
-	hstack *stack.Stack[heur.StackMove]
-	aux    *move.Store // for the reference enumeration only
+	b         *board.Board
+	ms        *move.Store
+	ranker    heur.MoveRanker
+	hstack    *stack.Stack[heur.StackMove]
+	aux       *move.Store // for the reference enumeration only
+	frameless bool
 }
 
 func sortedEnc(ms []move.Move) []int {
@@ -115,8 +119,12 @@ func exercise(w *world, hash move.Move, nest []int, hashes []int, level int, rec
 	fen := w.b.FEN()
 
 	pck := picker.New(w.b, hash, w.ms, &w.ranker, w.hstack)
-	w.ms.Push()
-	defer w.ms.Pop()
+	if level > 0 || !w.frameless {
+		w.ms.Push()
+		defer w.ms.Pop()
+	} else {
+		defer w.ms.Clear()
+	}
 
 	var got []move.Move
 	stopAfter := -1
@@ -286,6 +294,10 @@ func checkCase(c Case, rec *evid.Rec) (err error) {
 	if err := bands(w); err != nil {
 		return err
 	}
+	w.frameless = c.Frameless
+	if rec != nil && len(c.Nest) >= 8 {
+		rec.Class("deep_nesting>=8")
+	}
 	return exercise(w, move.Move(c.Hash), c.Nest, c.Hashes, 0, rec)
 }
 
@@ -435,7 +447,12 @@ func TestC16(t *testing.T) {
 				}
 			}
 			c.Hash = hashCandidate(t, &end)
-			for d := gen.Draw(t, 0, 3, "nestDepth"); d > 0; d-- {
+			depth := gen.Draw(t, 0, 3, "nestDepth")
+			if gen.Chance(t, 1, 6, "deepNest") { // as deep as a real search goes: hundreds of moves on the shared store
+				depth = gen.Draw(t, 8, 45, "deepNestDepth")
+			}
+			c.Frameless = gen.Chance(t, 1, 10, "frameless")
+			for d := depth; d > 0; d-- {
 				c.Nest = append(c.Nest, gen.Draw(t, 1, 30, "stopAfter"))
 				if gen.Chance(t, 1, 2, "nestedHash") {
 					c.Hashes = append(c.Hashes, gen.Draw(t, 0, 1<<15-1, "nh"))
